@@ -166,7 +166,10 @@ var c15BFiles = []string{"post", "plain", "rel", "lay", "base"}
 var c15BPath = map[string]string{"post": "blog/post.vuego", "plain": "blog/plain.vuego", "rel": "blog/wide.vuego", "lay": "layouts/wide.vuego", "base": "layouts/base.vuego"}
 
 var c15BEvents = []string{"edit:post", "edit:plain", "edit:rel", "edit:lay", "edit:base", "delete:rel", "delete:lay", "delete:base",
-	"render:load:post", "render:load:plain", "render:file:post", "render:file:plain"}
+	"render:load:post", "render:load:plain", "render:file:post", "render:file:plain",
+	// a Template object obtained with Load is kept across later events and rendered then; what it
+	// renders itself is unconstrained (it was loaded before the edits), but it must not spoil later renders
+	"hold:post", "hold:plain", "render:held"}
 
 func c15BContent(f string, v int) string {
 	switch f {
@@ -213,6 +216,7 @@ func (c *c15Case) runB(ctx *core.Ctx) {
 		tpl := vuego.NewFS(m)
 		ok := true
 		rendered := ""
+		var held vuego.Template
 		render := func(t vuego.Template, entry, page string) string {
 			var buf bytes.Buffer
 			var err error
@@ -241,7 +245,20 @@ func (c *c15Case) runB(ctx *core.Ctx) {
 				}
 				files[parts[1]].exists = false
 				sync()
+			case "hold":
+				held = tpl.Load(c15BPath[parts[1]]).Fill(map[string]any{"x": 1})
 			case "render":
+				if parts[1] == "held" {
+					if held == nil {
+						return // nothing held: prune
+					}
+					ctx.Eval(1)
+					ctx.Transition(1)
+					var hb bytes.Buffer
+					_ = held.Render(bg, &hb)
+					ctx.Zone("render-of-a-template-loaded-before-later-edits")
+					continue
+				}
 				ctx.Eval(2)
 				ctx.Transition(1)
 				got := render(tpl, parts[1], parts[2])
@@ -270,15 +287,28 @@ func (c *c15Case) runB(ctx *core.Ctx) {
 			}
 			lastOf := map[string]string{}
 			nv := 1
+			heldKey, heldPage, heldVer, heldRendered := "", "", 0, false
+			defer func() { _ = heldPage }()
 			for _, ev := range hist {
 				parts := strings.Split(ev, ":")
 				switch parts[0] {
+				case "hold":
+					heldPage, heldVer, heldRendered = parts[1], ver[parts[1]], false
+					heldKey = parts[1]
+					for _, f := range c15BFiles {
+						heldKey += fmt.Sprint(ex[f])[:1]
+					}
 				case "edit":
 					ex[parts[1]], ver[parts[1]] = true, nv
 					nv++
+					heldRendered = false // "the held template was rendered since the last edit"
 				case "delete":
 					ex[parts[1]] = false
 				case "render":
+					if parts[1] == "held" {
+						heldRendered = true
+						continue
+					}
 					snap := ""
 					// the files this render loads (reference resolution: relative twin before layouts/)
 					loads := []string{"plain", "base"}
@@ -305,6 +335,10 @@ func (c *c15Case) runB(ctx *core.Ctx) {
 			for _, r := range []string{"loadpost", "loadplain", "filepost", "fileplain"} {
 				key += r + "=" + lastOf[r] + "|"
 			}
+			if heldKey != "" {
+				heldKey += fmt.Sprintf("/%v/%v", heldVer == ver[heldPage], heldRendered)
+			}
+			key += "held=" + heldKey
 		}
 		_ = rendered
 		if seenStates[key] {
@@ -474,7 +508,7 @@ func init() {
 		ID:    "C15",
 		Level: "model_checking",
 		Rule: "explicit-state search over all histories up to the bound of {edit page/component/layout with an mtime that advances, stays equal or goes back; delete; make invalid (broken front-matter); render through Load().Render, RenderFile, Vue.Render, Vue.RenderFragment} on an in-memory file system with chosen mtimes; each history is replayed on fresh long-lived engines. " +
-			"A second world does the same for layout resolution: a post naming layout `wide` with a relative twin (blog/wide.vuego), a layouts/wide.vuego fallback and layouts/base.vuego, a page without layout; events create/edit/delete each of them and render both pages through Load().Render and RenderFile. " +
+			"A second world does the same for layout resolution: a post naming layout `wide` with a relative twin (blog/wide.vuego), a layouts/wide.vuego fallback and layouts/base.vuego, a page without layout; events create/edit/delete each of them, render both pages through Load().Render and RenderFile, and keep a loaded Template object across later events and render it then. " +
 			"oracle: after every render event, bytes/error equal those of newly created engines on the current files (differential, no hand-written expectation). states = distinct (file states, possibly-cached versions); a wrapping fs.FS counts reads to show that cache hits happen. non-trivial = all",
 		Bounds:      map[string]string{"quick": "histories of <=5 events over 19 event kinds; layout world: <=6 events over 12 kinds", "thorough": "histories of <=6 events; layout world <=7"},
 		Assumptions: []string{"a render is unconstrained while an involved file has content that differs from what an engine may hold under the same mtime (documented cache limit)", "the cache only sees fs.FS, so an in-memory FS with chosen mtimes covers every answer it can get"},
